@@ -36,7 +36,7 @@ struct C20 : Property
 	std::vector<std::string> probes() const override
 	{
 		return {"read.exactly_buffer_size", "read.final_short_read_of_1", "read.multiple_buffers", "write.loop_more_than_one_iteration", "write.bytewise", "error.first_call", "error.middle_call",
-		        "error.last_call", "open.failure", "alloc.failure_inside_from_fd", "alloc.failure_inside_to_fd", "parse.error_reported", "depth.limit_applied", "depth.limit_above_default_used", "to_file.closes_once_on_error", "write.failure_with_message", "read.descriptor_not_at_offset_0"};
+		        "error.last_call", "open.failure", "alloc.failure_inside_from_fd", "alloc.failure_inside_to_fd", "parse.error_reported", "depth.limit_applied", "depth.limit_above_default_used", "to_file.closes_once_on_error", "write.failure_with_message", "read.descriptor_not_at_offset_0", "write.over_longer_existing_file"};
 	}
 	std::map<std::string, int64_t> cfg_defaults() const override { return {{"sched", 0}}; }
 
@@ -93,7 +93,7 @@ struct C20 : Property
 			api = 4; // the depth argument only exists on json_object_from_fd_ex
 		// errno is a hidden input of the calling thread: whatever an earlier, unrelated call left there must not matter
 		static const int stale[] = {0, 0, EINTR, EAGAIN, ENOMEM, EIO, EBADF};
-		t.a = {api, arg1, (int64_t)r.below(4), (int64_t)r.below(100000), stale[r.below(7)], (int64_t)(r.below(3) == 0), (int64_t)(r.chance(1, 4) ? r.below(6) : 0)}; // last but one: the descriptor is a pipe (fstat size 0, lseek ESPIPE) instead of a regular file
+		t.a = {api, arg1, (int64_t)r.below(4), (int64_t)r.below(100000), stale[r.below(7)], (int64_t)(r.below(3) == 0), (int64_t)(r.chance(1, 3) ? r.below(64) : 0)}; // last but one: the descriptor is a pipe (fstat size 0, lseek ESPIPE) instead of a regular file
 		p.ops.push_back(t);
 		return p;
 	}
@@ -167,8 +167,13 @@ struct C20 : Property
 		g_fd.as_fifo = op.arg(5) == 1;
 		// file names are data: one that contains printf conversions must come out of every message path unharmed (a message built
 		// by using the name as a format string reads or writes through garbage pointers)
-		const char *in_path = (op.arg(6) & 1) ? "/jsim/in%s%n%d.json" : "/jsim/in.json";
-		const char *out_path = (op.arg(6) & 1) ? "/jsim/out%s%n%5$s.json" : "/jsim/out.json";
+		// ... and one that is long (the message buffer is finite: the message may be truncated, not dropped)
+		static const std::string long_name(230, 'n');
+		std::string in_path_s = (op.arg(6) & 8) ? "/jsim/" + long_name + "-in.json" : (op.arg(6) & 1) ? "/jsim/in%s%n%d.json" : "/jsim/in.json";
+		std::string out_path_s = (op.arg(6) & 8) ? "/jsim/" + long_name + "-out.json" : (op.arg(6) & 1) ? "/jsim/out%s%n%5$s.json" : "/jsim/out.json";
+		const char *in_path = in_path_s.c_str(), *out_path = out_path_s.c_str();
+		// the process may have closed its stdin: the library's own open() then returns descriptor 0, a valid descriptor
+		g_fd.lowest_free_is_zero = (op.arg(6) & 32) && (api == 1 || api == 2 || api == 5);
 		// sentinel message so that "a new message" is observable
 		(void)LIB(json_object_to_fd(1, nullptr, 0)); // documented failure: sets "json_object_to_fd: object is null"
 		std::string sentinel = json_util_get_last_err() ? json_util_get_last_err() : "";
@@ -198,6 +203,14 @@ struct C20 : Property
 				LIBV(json_object_put(cp));
 			std::string before = text;
 			int fd = -1;
+			// the file may exist already and be longer than what is written now: the write replaces it, no old tail may survive
+			std::string preexisting;
+			if ((op.arg(6) & 16) && api != 0)
+			{
+				preexisting = std::string(expected.size() + 7 + (size_t)(op.arg(3) % 50), 'Z');
+				g_fd.files[out_path] = preexisting;
+				ctx.probe("write.over_longer_existing_file");
+			}
 			if (api == 0)
 				fd = g_fd.open_sim(out_path, false, true, true, true);
 			e.ran = true;
@@ -238,7 +251,7 @@ struct C20 : Property
 					bad(ctx, "bad-failure-channel", e, faults, "returned %d", rc);
 				if (!(e.injected || e.fired))
 					bad(ctx, "spurious-failure", e, faults, "failed although no fault was injected");
-				if (e.file != "<no file>")
+				if (e.file != "<no file>" && !(!preexisting.empty() && e.file == preexisting)) // (an open() that failed leaves an existing file as it was)
 				{
 					if (e.file.size() > expected.size() || expected.compare(0, e.file.size(), e.file) != 0)
 						bad(ctx, "wrong-bytes-written", e, faults, "after the failure the descriptor holds %zu bytes that are not a prefix of the serialization", e.file.size());
